@@ -32,7 +32,9 @@ W3 = {"stakers": 2, "operators": 2, "assets": ["lst", "nst"], "holdops": ["o1"],
       "scales": ["1", "1000003"], "blocksPer": 5, "modelPrec": 100}
 # lead configurations: invariants that the FAITHFUL model violates exactly when the code has the
 # corresponding defect; TLC's shortest counterexample is replayed on the real code (DESIGN 2.2)
-LEADS = [("MC_Ledger_t.tla", "MC_Ledger_lead_atomic.cfg", dict(W3, blocksPer=10))]
+LEADS = [("MC_Ledger_t.tla", "MC_Ledger_lead_atomic.cfg", dict(W3, blocksPer=10)),
+         # C03 "never early, including records loaded from genesis": restart with a lower initial height
+         ("MC_LedgerGenesis.tla", "MC_LedgerGenesis_lead.cfg", dict(W1, blocksPer=1, scales=["1"], baseHeights=[254]))]
 
 # goal-directed generation: breadth-first TLC runs that print a shortest behaviour for every coverage
 # goal (named branch of the transcription, Ledger!Goals) -> (module, cfg, harness world)
